@@ -56,6 +56,10 @@ class AM:
                 t = mod.body[0]
             else:
                 t = mod.body
+            # developer guard: a template that assigns to a module-level name would silently stop matching once the local is renamed
+            for n in ast.walk(mod):
+                if isinstance(n, ast.Name) and isinstance(n.ctx, ast.Store) and n.id in self.fixed and n.id not in self.params:
+                    raise ValueError(f"template `{template}` stores to the non-local name `{n.id}`; use another placeholder")
             self._cache[template] = t
         return t
 
